@@ -15,6 +15,19 @@ CLAIMED = {
         'specs/llcp_frames.py as the reading of LLCP 1.3. TLV-loop decoders: field agreement for arbitrary byte '
         'strings is proved only for fixed-format PDU types; SNL/AGF round trips bounded (<=3 entries / 2 sub-PDUs).',
    technique='contract-based deductive verification: AST->z3 VC generation (pyvc) over the real source, sidecar contracts'),
+ 'C10': dict(
+   category='proof',
+   text='Interface contract of dequeue()/sendack() (information field within miu_size, or a 3-octet control PDU) proved for '
+        'tco.TransmissionControlObject/LogicalDataLink/DataLinkConnection, llc.ServiceAccessPoint and '
+        'llc.ServiceDiscovery for all queue contents and all miu_size; llc.collect() proved against that interface '
+        'with loop invariants over an unbounded list of service access points and an unbounded aggregate (list '
+        'measure for the AGF length): the returned PDU/aggregate never exceeds cfg[send-miu] unless a raw access '
+        'point contributed; send()/sendto() refuse oversize messages before queuing; connect() clamps send_miu.',
+   design_ref='DESIGN.md section 5 (C10)',
+   note='llc.sap is abstracted to the list of its active entries, each obeying the interface contract '
+        '(models/llc_models.py, proved per implementing class); secure data transfer (self.sec) off; sorted() order '
+        'abstracted; termination of the aggregation while-loop not proved; AGF dispatch order not covered.',
+   technique='contract-based deductive verification: AST->z3 VC generation (pyvc), loop invariants, interface contracts'),
 }
 
 NOT_APPLICABLE = {}
